@@ -477,6 +477,25 @@ def run(ck, tier):
                           message='add_%s raises for %d, which its struct type holds (conditions %s): that value cannot be packed any more' % (name, v, [U(c_)[:40] for c_, _ in conds]))
                     break
     ck.floor('R4', n4, 8, 'paths of the integer adders')
+    # ... and what is packed is the value that was given: the numeric adders hand their argument itself to pack / _pack_words
+    ck.rule('R8', 'the numeric add_* methods pack the value they are given: the argument reaches struct.pack / _pack_words unchanged (no clamping, rounding or substitution)')
+    n8 = 0
+    for name in list(RANGES) + ['16bit_float', '32bit_float', '64bit_float']:
+        fn = cx.idx.find_method(b, 'add_' + name)
+        if fn is None:
+            continue
+        val = fn.params[1]
+        for p in cx.enum(fn, b, max_depth=0):
+            if p.exit and p.exit[0] == 'exc':
+                continue
+            annotate(p, heap=False)
+            for e in p.ev:
+                t = getattr(e, '_sub', None)
+                if e.kind == 'call' and isinstance(t, ast.Call) and callee_name(t) in ('pack', '_pack_words') and len(t.args) >= 2:
+                    n8 += 1
+                    ck.ob('R8', fn.qn, 'packs the argument itself', U(t.args[1]) == val, detail='packed-value-not-the-argument', loc=cx.floc(fn, e.node),
+                          message='add_%s packs `%s` instead of the value it was given: the decoder cannot give back what the caller added' % (name, U(t.args[1])[:60]))
+    ck.floor('R8', n8, 8, 'pack calls of the numeric adders')
     ck.assume('value-level round trips (signs, NaN, subnormals) rest on struct, which is trusted')
     from .. import ownership as _own
     ck.guard(_own.rule_instance_owned, ck, cx, 'R5', _own.PAYLOAD, 'values added to one builder appear in the payload of another', 1)
